@@ -282,8 +282,8 @@ def run(ctx):
         for span in fwd + [(1.0, -1.0), (2.0, 0.5)]:
             for ms in (0.1, 0.5):
                 for tol in (None, 1e-8):
-                    if tol is None and nm in ADAPTIVE and ctx.quick:
-                        continue
+                    if tol is None and nm in ADAPTIVE and (ctx.quick or nm in ("RadauIIA5", "AHE")):
+                        continue        # (implicit / 2nd-order embedded pairs at the default tolerance of 32 eps need minutes per run)
                     for te in ((None,) if span[1] < span[0] else (None, [span[0] + 0.5 * (span[1] - span[0]), span[1]])):
                         cases.append(dict(section="facade", method=nm, span=list(span), shape=[2], t_eval=te, dense=False, tol=tol, max_step=ms, first_step=None, by_hand=True))
     # S5: scipy
